@@ -782,7 +782,8 @@ def fusion(
     while True:
         try:
             instr2, addr2 = next(instr_iter)
-        except (StopIteration, NotImplementedError):
+        except (StopIteration, NotImplementedError, AssertionError):
+            # Bytes *after* instr1 that fail to decode must not affect instr1.
             yield instr1, addr1
             break
 
